@@ -1783,3 +1783,16 @@ where
         }
     }
 }
+
+// ===== verification hooks (feature `verif`) =====
+
+#[cfg(feature = "verif")]
+impl<T, B> Connection<T, B>
+where
+    B: Buf + 'static,
+{
+    #[doc(hidden)]
+    pub fn verif_probe(&self) -> crate::verif::VerifProbe {
+        self.connection.verif_probe()
+    }
+}
